@@ -35,6 +35,8 @@ def required_cells(tier):
     for p in ("in", "intersection", "eq-hash", "measure", "scalar-query", "there-and-back", "deepcopy-interleaved"):
         req["probe:" + p] = 200
     req["receiver:derived-by-negation"] = 100
+    req["nt:int"] = 50
+    req["nt:Fraction"] = 100
     return req
 
 
@@ -85,7 +87,7 @@ def cases(rng, budget, widx, nworkers, tier):
                 moves[j] = K.mul(rng.choice(own), rng.choice((1, -1, 2, F(1, 2), F(-1, 2), 3)))
         yield {"d": d, "style": style, "moves": moves, "ls": rng.getrandbits(30), "ps": rng.getrandbits(30),
                "neg": rng.random() < 0.3, "copy_at": [j for j in range(len(moves)) if rng.random() < 0.25],
-               "switch": rng.random() < 0.3}
+               "switch": rng.random() < 0.3, "nt": rng.choice(("float", "float", "float", "int", "int", "Fraction"))}
 
 
 def _vclass(v):
@@ -203,7 +205,11 @@ def judge(case):
     k = d[0]
     mu = core.Multi()
     mu.cell("kind:%s/style-%s" % (k, style))
-    obj = lift(d, random.Random(case["ls"]))
+    nt = {"int": int, "Fraction": F}.get(case.get("nt"), float)
+    if nt is int and not all(F(c).denominator == 1 for c in gen.coords_of(d)):
+        nt = float
+    mu.cell("nt:" + nt.__name__)
+    obj = lift(d, random.Random(case["ls"]), nt)
     if case.get("neg") and k in ("PG", "PL"):
         # a receiver obtained by negation: the same set, but an object wired by another code path
         obj = -(-obj) if k == "PG" else -obj
@@ -234,7 +240,7 @@ def judge(case):
             mu.fail("%s:move-raises-%s" % (k, M.classify_exc(exc)), "%s.move(%s) raised %s: %s" % (gen.NAMES[k], C.show_short(v), type(exc).__name__, exc))
             break
         cur = translate(cur, v)
-        fresh = lift(cur, random.Random(case["ls"]))
+        fresh = lift(cur, random.Random(case["ls"]), nt if nt is not int or all(F(c).denominator == 1 for c in gen.coords_of(cur)) else float)
         if style == "A":
             r, e, _ = M.call(lambda a, b: a == b, ret, obj)
             if e is not None or not r:
